@@ -28,12 +28,14 @@ def run(tier):
     corpus = [(name, p, root, render(p, root)) for name, p, root in gen_loops.loops()]
     only = os.environ.get("VERIF_C11_ONLY")
     if only:
-        corpus = [c for c in corpus if c[0] == only.replace("@thread", "").replace("@fresh", "")]
+        corpus = [c for c in corpus if c[0] == only.replace("@thread", "").replace("@fresh", "").replace("@resumed", "")]
     # every program also runs in a state made by NewThread with the context attached to that state, and - when it
     # needs no library - as the very first call on a state on which nothing has run before
     LIBNAMES = ("pcall", "xpcall", "error", "coroutine", "setmetatable", "select", "type", "tostring", "ipairs", "pairs", "unpack", "string", "table", "math")
     nolib = [c for c in corpus if not any(nd.get("k") == "id" and nd.get("n") in LIBNAMES for nd in c[1].nodes[1:])]
-    corpus = corpus + [(name + "@thread", p, root, src) for name, p, root, src in corpus] + [(name + "@fresh", p, root, src) for name, p, root, src in nolib]
+    # ... and as the body of a thread that alone has the context, driven with Resume by a state that has none
+    corpus = corpus + [(name + "@thread", p, root, src) for name, p, root, src in corpus] + [(name + "@fresh", p, root, src) for name, p, root, src in nolib] \
+        + [(name + "@resumed", p, root, src) for name, p, root, src in corpus if "swap" not in name]
     runs, index = [], {}
     for ci, (name, p, root, src) in enumerate(corpus):
         for k in range(1, K + 1):
@@ -44,6 +46,8 @@ def run(tier):
                 run["opts"] = {"thread": True}
             if name.endswith("@fresh"):
                 run["opts"] = {"fresh": True}
+            if name.endswith("@resumed"):
+                run["opts"] = {"resumed": True}
             runs.append(run)
     outs = lsem.run_real(runs, "c11", timeout=2400)
     recs = []
